@@ -50,7 +50,7 @@ func configs() []Config {
 }
 
 func genCase(t *rapid.T) Case {
-	o := mpcl.Opts{MaxStmts: 7, MaxDepth: 3, Helpers: 1, Arrays: true, Loops: true, DynIndex: true,
+	o := mpcl.Opts{MaxStmts: 7, MaxDepth: 3, Helpers: 1, Arrays: true, Loops: true, DynIndex: true, ArrayParams: true, StructParams: true, Structs: true, PlainDiv: true,
 		MulHeavy: rapid.IntRange(0, 9).Draw(t, "mulheavy") < 7, MaxWidth: maxWidth()}
 	p := mpcl.Draw(t, o)
 	// All assignments when the inputs have <= 13 bits (thorough) or <= 11
@@ -62,7 +62,7 @@ func genCase(t *rapid.T) Case {
 	if ev.Get(prop).Thorough() {
 		exh = 13
 	}
-	return Case{Prog: p, Inputs: mpcl.DrawInputsN(t, p, exh, 64)}
+	return Case{Prog: p, Inputs: mpcl.DrawInputsN(t, p, exh, nvec())}
 }
 
 func gateHash(c *circuit.Circuit) string {
@@ -120,6 +120,7 @@ func run(cs Case) ev.Outcome {
 	type vec struct {
 		cin  []*big.Int
 		want []*big.Int
+		desc string
 	}
 	var vecs []vec
 	cfgs := configs()
@@ -151,6 +152,10 @@ func run(cs Case) ev.Outcome {
 					return ev.Outcome{Skip: "bad input vector"}
 				}
 				want, err := p.Run(args)
+				if mpcl.IsDivZero(err) {
+					ev.Get(prop).Count("input-vectors-skipped-division-by-zero", 1)
+					continue
+				}
 				if err != nil {
 					return ev.Outcome{Skip: "interpreter: " + err.Error()}
 				}
@@ -158,7 +163,7 @@ func run(cs Case) ev.Outcome {
 				if err != nil {
 					return ev.Fail("io-shape", "%v\n%s", err, src)
 				}
-				v := vec{cin: cin}
+				v := vec{cin: cin, desc: fmt.Sprint(in)}
 				for i, r := range main.Results {
 					v.want = append(v.want, p.Pack(r, want[i]))
 				}
@@ -168,7 +173,7 @@ func run(cs Case) ev.Outcome {
 			return ev.Fail("signature-differs/"+cfg.String(), "%s: I/O sizes differ from the default configuration\n%s", cfg, src)
 		}
 	vectors:
-		for vi, v := range vecs {
+		for _, v := range vecs {
 			got, err := circ.Compute(v.cin)
 			if err != nil {
 				return ev.Fail("compute-error", "%s: %v", cfg, err)
@@ -181,8 +186,8 @@ func run(cs Case) ev.Outcome {
 					}
 					failing = append(failing, cfg)
 					if firstFail == "" {
-						firstFail = fmt.Sprintf("%s: inputs %v: result %d = 0x%s, reference 0x%s",
-							cfg, cs.Inputs[vi], i, g, v.want[i].Text(16))
+						firstFail = fmt.Sprintf("%s: inputs %s: result %d = 0x%s, reference 0x%s",
+							cfg, v.desc, i, g, v.want[i].Text(16))
 					}
 					break vectors
 				}
@@ -237,10 +242,20 @@ func TestConfigs(t *testing.T) {
 func TestReplay(t *testing.T) { ev.Replay(t, ev.Get(prop)) }
 
 // maxWidth bounds operand widths: GMW-target dividers and Wallace multipliers
-// of 60-70 bits take seconds to build, so the quick tier stays below 48 bits.
+// of 60-70 bits take seconds to build, so the quick tier stays at or below 33 bits.
 func maxWidth() int {
 	if ev.Get(prop).Thorough() {
 		return 72
 	}
-	return 47
+	return 33
+}
+
+// nvec is the number of drawn input vectors for programs whose inputs are too
+// wide for exhaustive enumeration: 64 (one simulation pass) in the thorough
+// tier, 24 in the quick tier, which spends its budget on more programs.
+func nvec() int {
+	if ev.Get(prop).Thorough() {
+		return 64
+	}
+	return 24
 }
